@@ -147,7 +147,9 @@ func (c *serverConn) connect(header *parser.PacketHeader, decode parser.Decode) 
 		}
 	}
 
-	socket, err := nsp.add(c, auth)
+	// Namespace.doConnect registers the socket with this connection
+	// before the CONNECT reply is sent.
+	_, err = nsp.add(c, auth)
 	if err != nil {
 		c.debug.Log("Connection to namespace", nsp.name, "was denied")
 		mErr := &middlewareError{}
@@ -158,9 +160,6 @@ func (c *serverConn) connect(header *parser.PacketHeader, decode parser.Decode) 
 		}
 		return
 	}
-
-	c.sockets.set(socket)
-	c.nsps.set(nsp)
 }
 
 func (c *serverConn) connectError(message any, nsp string) {
